@@ -1,4 +1,9 @@
-(* Closures3.v — C01: the fragment extended with CLOSURES AS VALUES.
+(* Closures4.v — C01: fragment 4 = the fragment with CLOSURES AS VALUES (Closures3.v) extended with
+   lambda BODIES OF SEVERAL EXPRESSIONS: (lambda (x1 ... xn) e1 ... ek), k >= 1, no ei a define form;
+   e1 .. e(k-1) are evaluated for effect in non-tail position, ek in tail position gives the value.
+   This file is a port of Closures3.v (same structure, constants renamed from ...3 to ...4, Y.. to Z..).
+
+   The header of Closures3.v:
 
      e ::= c | (quote d) | (if e e e) | (if e e) | x | (define x e) | (set! x e)     (x global in define/set!)
          | (lambda (x1 ... xn) body)        in ANY expression position; body: one expression of the fragment
@@ -48,7 +53,13 @@ Inductive expr4 :=
 | ZDefine (x : text) (e : expr4)
 | ZSet (x : text) (e : expr4)
 | ZApp (f : expr4) (args : list expr4)
-| ZLam (ps fs : list text) (body : expr4).
+| ZLam (ps fs : list text) (bodies : list expr4).
+
+(* the datum (lambda (ps...) b1 ... bk) *)
+Definition lam_cells (ps : list text) (bodies : list cell) : cell :=
+  CPair LAMBDA_ (CPair (syms_of ps) (fold_right CPair CNil bodies)).
+Lemma lam_cells_one ps b : lam_cells ps [b] = lam_cell ps b.
+Proof. reflexivity. Qed.
 
 Fixpoint cell_of4 (e : expr4) : cell :=
   match e with
@@ -60,8 +71,9 @@ Fixpoint cell_of4 (e : expr4) : cell :=
   | ZDefine x e => CPair DEFINE_ (CPair (CSym x) (CPair (cell_of4 e) CNil))
   | ZSet x e => CPair SET_ (CPair (CSym x) (CPair (cell_of4 e) CNil))
   | ZApp f args => CPair (cell_of4 f) (fold_right CPair CNil (map cell_of4 args))
-  | ZLam ps fs body => lam_cell ps (cell_of4 body)
+  | ZLam ps fs bodies => lam_cells ps (map cell_of4 bodies)
   end.
+Definition cells_of4 (args : list expr4) : cell := fold_right CPair CNil (map cell_of4 args).
 
 Definition is_define4 (e : expr4) : bool := match e with ZDefine _ _ => true | _ => false end.
 
@@ -80,7 +92,7 @@ Fixpoint allvars4 (e : expr4) : list text :=
   | ZVar x => [x]
   | ZDefine x e | ZSet x e => x :: allvars4 e
   | ZApp f args => allvars4 f ++ flat_map allvars4 args
-  | ZLam _ _ body => allvars4 body
+  | ZLam _ _ bodies => flat_map allvars4 bodies
   end.
 
 (* [wf4 e sc]: e is well formed inside a lambda whose environment map binds the names sc.
@@ -97,11 +109,14 @@ Fixpoint wf4 (e : expr4) (sc : list text) {struct e} : Prop :=
   | ZDefine x e | ZSet x e => is_primitive_symbol (CSym x) = false /\ pindex x sc = None /\ wf4 e sc
   | ZApp f args => special_head (cell_of4 f) = false /\ wf4 f sc /\
                    (fix all (l : list expr4) : Prop := match l with [] => True | x :: r => wf4 x sc /\ all r end) args
-  | ZLam ps fs body =>
-      (forall x, In x ps -> is_primitive_symbol (CSym x) = false) /\ is_define4 body = false /\
-      free_symbols (lam_cell ps (cell_of4 body)) = Ok (map CSym fs) /\
-      (forall x, In x (allvars4 body) -> In x ps \/ bound_in sc x = false \/ In x fs) /\
-      wf4 body (ps ++ capnames sc fs)
+  | ZLam ps fs bodies =>
+      bodies <> [] /\
+      (forall x, In x ps -> is_primitive_symbol (CSym x) = false) /\
+      (forall b, In b bodies -> is_define4 b = false) /\
+      free_symbols (lam_cells ps (map cell_of4 bodies)) = Ok (map CSym fs) /\
+      (forall x, In x (flat_map allvars4 bodies) -> In x ps \/ bound_in sc x = false \/ In x fs) /\
+      (fix all (l : list expr4) : Prop :=
+         match l with [] => True | x :: r => wf4 x (ps ++ capnames sc fs) /\ all r end) bodies
   end.
 
 Lemma wf4_all sc args :
@@ -115,6 +130,14 @@ Qed.
 Lemma wf4_app sc f args : wf4 (ZApp f args) sc <->
   special_head (cell_of4 f) = false /\ wf4 f sc /\ Forall (fun x => wf4 x sc) args.
 Proof. cbn [wf4]. rewrite wf4_all. reflexivity. Qed.
+Lemma wf4_lam sc ps fs bodies : wf4 (ZLam ps fs bodies) sc <->
+  bodies <> [] /\
+  (forall x, In x ps -> is_primitive_symbol (CSym x) = false) /\
+  (forall b, In b bodies -> is_define4 b = false) /\
+  free_symbols (lam_cells ps (map cell_of4 bodies)) = Ok (map CSym fs) /\
+  (forall x, In x (flat_map allvars4 bodies) -> In x ps \/ bound_in sc x = false \/ In x fs) /\
+  Forall (fun b => wf4 b (ps ++ capnames sc fs)) bodies.
+Proof. cbn [wf4]. rewrite wf4_all. reflexivity. Qed.
 
 Section expr4_ind2.
 Variable P : expr4 -> Prop.
@@ -126,7 +149,7 @@ Hypothesis Hvar : forall x, P (ZVar x).
 Hypothesis Hdef : forall x e, P e -> P (ZDefine x e).
 Hypothesis Hset : forall x e, P e -> P (ZSet x e).
 Hypothesis Happ : forall f args, P f -> Forall P args -> P (ZApp f args).
-Hypothesis Hlam : forall ps fs body, P body -> P (ZLam ps fs body).
+Hypothesis Hlam : forall ps fs bodies, Forall P bodies -> P (ZLam ps fs bodies).
 Fixpoint expr4_ind2 (e : expr4) : P e :=
   match e with
   | ZConst c => Hconst c
@@ -139,7 +162,9 @@ Fixpoint expr4_ind2 (e : expr4) : P e :=
   | ZApp f args => Happ f args (expr4_ind2 f)
       ((fix go (l : list expr4) : Forall P l :=
           match l with [] => Forall_nil P | x :: r => Forall_cons x (expr4_ind2 x) (go r) end) args)
-  | ZLam ps fs body => Hlam ps fs body (expr4_ind2 body)
+  | ZLam ps fs bodies => Hlam ps fs bodies
+      ((fix go (l : list expr4) : Forall P l :=
+          match l with [] => Forall_nil P | x :: r => Forall_cons x (expr4_ind2 x) (go r) end) bodies)
   end.
 End expr4_ind2.
 
@@ -147,7 +172,7 @@ End expr4_ind2.
 (* a closure: parameters, captured names, body, the values of the captured variables *)
 Inductive rval4 :=
 | R4Base (r : rval)
-| R4Clo (ps cs : list text) (body : expr4) (cvals : list rval4).
+| R4Clo (ps cs : list text) (bodies : list expr4) (cvals : list rval4).
 
 Section rval4_ind2.
 Variable P : rval4 -> Prop.
@@ -205,18 +230,20 @@ Inductive ref_eval4 : list text -> list rval4 -> env4 -> expr4 -> rval4 -> env4 
 | R4_set sc lv rho x e r rho1 old :
     ref_eval4 sc lv rho e r rho1 -> rho1 x = Some old ->
     ref_eval4 sc lv rho (ZSet x e) (R4Base (RDatum CVoid)) (upd4 rho1 x r)
-| R4_lam sc lv rho ps fs body cvals :
+| R4_lam sc lv rho ps fs bodies cvals :
     Forall2 (fun x v => exists i, pindex x sc = Some i /\ nth_error lv (N.to_nat i) = Some v)
             (capnames sc fs) cvals ->
-    ref_eval4 sc lv rho (ZLam ps fs body) (R4Clo ps (capnames sc fs) body cvals) rho
+    ref_eval4 sc lv rho (ZLam ps fs bodies) (R4Clo ps (capnames sc fs) bodies cvals) rho
 | R4_app_builtin sc lv rho f args rbs rho1 b rho2 r :
     ref_evals4 sc lv rho args (map R4Base rbs) rho1 -> ref_eval4 sc lv rho1 f (R4Base (RBuiltin b)) rho2 ->
     bsem b rbs = Some r ->
     ref_eval4 sc lv rho (ZApp f args) (R4Base r) rho2
-| R4_app_closure sc lv rho f args rs rho1 ps cs body cvals rho2 r rho3 :
-    ref_evals4 sc lv rho args rs rho1 -> ref_eval4 sc lv rho1 f (R4Clo ps cs body cvals) rho2 ->
+| R4_app_closure sc lv rho f args rs rho1 ps cs bodies cvals rho2 vs pre r rho3 :
+    ref_evals4 sc lv rho args rs rho1 -> ref_eval4 sc lv rho1 f (R4Clo ps cs bodies cvals) rho2 ->
     length rs = length ps ->
-    ref_eval4 (ps ++ cs) (rs ++ cvals) rho2 body r rho3 ->
+    (* the body expressions in sequence (the same judgement as for operands: left to right, the
+       global environment threaded); the value is that of the LAST one *)
+    ref_evals4 (ps ++ cs) (rs ++ cvals) rho2 bodies vs rho3 -> vs = pre ++ [r] ->
     ref_eval4 sc lv rho (ZApp f args) r rho3
 with ref_evals4 : list text -> list rval4 -> env4 -> list expr4 -> list rval4 -> env4 -> Prop :=
 | R4_nil sc lv rho : ref_evals4 sc lv rho [] [] rho
@@ -317,16 +344,59 @@ Definition ptr_slot (m : vm) (v : vcell) (P : vcell -> Prop) : Prop :=
     (forall e i, w <> VLexPtr e i) /\ P w.
 
 (* the code object of a closure: a lambda with parameters ps and captured entries for cs whose
-   bytecode is ENTER; cb; RET where cb is what compile_expression emitted for the body in tail
-   position, under a header binding ps ++ cs, in some earlier state s0' that m extends *)
-Definition closure_code (m : vm) (lamp : N) (ps cs : list text) (body : expr4) : Prop :=
+   bytecode is ENTER; cb; RET where cb is what the body loop emitted for the body expressions (the
+   last one in tail position), under a header binding ps ++ cs, in some earlier state s0' that m
+   extends *)
+(* the body loop of compile_lambda (Model/Compile.v, [body_loop]): every body expression is
+   compiled in turn into the same lambda, the LAST one (and only it) in tail position *)
+Section BodyLoop.
+Variable ce : lambda -> bool -> cell -> M lambda.
+Fixpoint body_loop4 (b : cell) (lam : lambda) {struct b} : M lambda :=
+  match b with
+  | CPair x r => dom lam' <- ce lam (is_nil r) x; body_loop4 r lam'
+  | _ => ret lam
+  end.
+End BodyLoop.
+Fixpoint compile_bodies (f : nat) (lam : lambda) (bodies : list cell) {struct bodies} : M lambda :=
+  match bodies with
+  | [] => ret lam
+  | x :: r => dom lam' <- compile_expression f lam (match r with [] => true | _ => false end) x;
+              compile_bodies f lam' r
+  end.
+Lemma compile_bodies_eq f bodies : forall lam s,
+  body_loop4 (compile_expression f) (fold_right CPair CNil bodies) lam s = compile_bodies f lam bodies s.
+Proof.
+  induction bodies as [|x r IH]; intros lam s; [reflexivity|].
+  cbn [fold_right body_loop4 compile_bodies].
+  replace (is_nil (fold_right CPair CNil r)) with (match r with [] => true | _ => false end) by (destruct r; reflexivity).
+  unfold bindM. destruct (compile_expression f lam _ x s) as [lam' s'| | |]; try reflexivity. apply IH.
+Qed.
+(* compile_lambda on (lambda (ps...) b1 ... bk): what the model does, with the body loop named *)
+Lemma compile_lambda4_eq f l tail ps bs s :
+  compile_expression (S f) l tail (lam_cells ps bs) s =
+  (dom (formals, vararg) <- (if is_nil (syms_of ps) then ret ([], false) else compile_formals (syms_of ps) []);
+   dom free <- lift (free_symbols (lam_cells ps bs));
+   dom free_refs <- put_cells free;
+   dom internal <- lift (internally_defined_symbols (fold_right CPair CNil bs));
+   dom internal_refs <- put_cells internal;
+   let lam0 := set_desc (lambda_from_iof formals internal_refs l free_refs vararg) (syms_of ps) in
+   let lam1 := if vararg then emit_op lam0 OVarArg else lam0 in
+   let lam2 := emit_op lam1 OEnter in
+   if is_nil (fold_right CPair CNil bs) then fail E_OTHER else
+   dom lam3 <- body_loop4 (compile_expression f) (fold_right CPair CNil bs) lam2;
+   dom lp <- put_lambda (emit_op lam3 ORet);
+   ret (emit_op (emit (emit (emit_op l OMovImmediate) lp) VAcc) OClosureAcc)) s.
+Proof. reflexivity. Qed.
+
+Definition closure_code (m : vm) (lamp : N) (ps cs : list text) (bodies : list expr4) : Prop :=
   exists lam caps cb f lam2 s0 lam3 s0',
     lam_in m lamp lam /\ l_envmap lam = ScopeProofs.enum_args (l_args lam) 0 ++ caps /\
     Forall2 (pname m) (l_args lam) ps /\
     Forall (fun e => exists k, snd e = BIofEnvironment k) caps /\ length caps = length cs /\
     l_bc lam = [VOp OEnter] ++ cb ++ [VOp ORet] /\
-    (cell_size (cell_of4 body) < f)%nat /\ wf4 body (ps ++ cs) /\ hdr4 lam2 (ps ++ cs) s0 /\ minv s0 /\
-    compile_expression f lam2 true (cell_of4 body) s0 = ROk lam3 s0' /\
+    bodies <> [] /\ (cell_size (cells_of4 bodies) < f)%nat /\ Forall (fun b => wf4 b (ps ++ cs)) bodies /\
+    hdr4 lam2 (ps ++ cs) s0 /\ minv s0 /\
+    compile_bodies f lam2 (map cell_of4 bodies) s0 = ROk lam3 s0' /\
     fwd lam2 = [VOp OEnter] /\ fwd lam3 = fwd lam2 ++ cb /\ cext s0' m.
 
 Fixpoint vrep4 (m : vm) (v : vcell) (r : rval4) {struct r} : Prop :=
@@ -345,10 +415,10 @@ Fixpoint vrep4 (m : vm) (v : vcell) (r : rval4) {struct r} : Prop :=
 Lemma closure_code_ext m m' lamp ps cs body : cext m m' -> closure_code m lamp ps cs body ->
   closure_code m' lamp ps cs body.
 Proof.
-  intros X (lam & caps & cb & f & lam2 & s0 & lam3 & s0' & H1 & H2 & H3 & H4 & H5 & H6 & H7 & H8 & H9 & H10 & H11 & H12 & H13 & H14).
+  intros X (lam & caps & cb & f & lam2 & s0 & lam3 & s0' & H1 & H2 & H3 & H4 & H5 & H6 & H7 & H8 & H9 & H10 & H11 & H12 & H13 & H14 & H15).
   exists lam, caps, cb, f, lam2, s0, lam3, s0'.
   split; [eapply lam_in_ext; eassumption|]. split; [exact H2|]. split; [eapply pnames_ext; eassumption|].
-  do 10 (split; [assumption|]). eapply cext_trans; eassumption.
+  do 11 (split; [assumption|]). eapply cext_trans; eassumption.
 Qed.
 
 Lemma ptr_slot_ext m m' v (P Q : vcell -> Prop) : rext m m' -> (forall w, P w -> Q w) ->
